@@ -71,8 +71,9 @@ DoneIsTermOrTrunc == \A i \in 1..Len(hist) : hist[i].row.done = (hist[i].term \/
 \* warm-up stores exactly learning_starts transitions; every iteration adds num_steps
 WarmUpCount == /\ phase = "run" => ring.pos = cfg.lstarts + iters * cfg.nsteps + inphase
                /\ phase = "warm" => ring.pos = inphase /\ iters = 0
-\* the environment was never driven with an out-of-bounds action when the collector clips a bounded box
-EnvSawClipped == (OuterA.kind = "box" /\ OuterA.lo > -M!INF /\ M!Depth = 0) =>
+\* the environment was never driven with an out-of-bounds action when the collector clips a (two-sided) bounded box; with a
+\* one-sided declared box [lo, INF) values above the base grid are inside the declared space and reach the environment
+EnvSawClipped == (OuterA.kind = "box" /\ OuterA.lo > -M!INF /\ OuterA.hi < M!INF /\ M!Depth = 0) =>
                     \A i \in 1..Len(hist) : hist[i].idx # cfg.nA + 1
 \* restart after done
 RestartAfterDone == \A i \in 1..Len(hist) :
